@@ -40,6 +40,8 @@ pub fn check(tier: Tier) -> Check {
     // identifier flavour: the counters start next to a boundary of their encodings (DESIGN 4)
     parts.push(Part::new("C06/interleave", json!({"depth": tier.pick(5, 6), "r": 2, "ids": [65534, 1]}), 1, tier.pick(30, 400)));
     parts.push(Part::new("C06/interleave", json!({"depth": tier.pick(5, 6), "ids": [255, 1]}), 0, tier.pick(30, 400)));
+    // value flavour (DESIGN 4): the same exploration with requests / inbound messages of unusual content
+    parts.push(Part::new("C06/interleave", json!({"depth": tier.pick(5, 6), "r": 2, "vals": 1}), 1, tier.pick(30, 400)));
     Check {
         also_rel: false,
         property: "C06",
